@@ -11,11 +11,30 @@ RULE = ("Lean (fits_accepted): for every declared parameter type and argument ty
         "marks each call CERTAINLY FITTING (every receiver class has a declaration whose count is accepted and whose parameters accept every possible class of every argument); no such row "
         "before the first certainly-failing row may carry a diagnostic. Non-trivial = rows the oracle decides.")
 
+WITNESS_K33 = {"frame": "Builtin", "class": "Kov", "instance_methods": [
+    {"name": "m", "arguments": [{"type": "Int"}, {"type": "Array", "key": "gamma:"}], "return_type": {"type": "Int"}},
+    {"name": "m", "arguments": [{"type": "String"}, {"type": "Float", "key": "gamma:"}], "return_type": {"type": "Int"}}],
+    "class_methods": [{"name": "new", "arguments": [], "return_type": {"type": "Kov"}}]}
+
+
+def replay_k33(ctx):
+    kf = next((f for f in ctx.findings if f.get("status") == "open" and f.get("predicate") == "overloads-sharing-keyword-name"), None)
+    if not kf:
+        return
+    wd = common.make_workdir(ctx, "k33")
+    json.dump(WITNESS_K33, open(os.path.join(wd, ".ti-config", "kov.json"), "w"))
+    meta.write(wd, "k.rb", "k = Kov.new\nk.m(1, gamma: [1])\n")
+    rc, so, se = common.run_ti(ctx.ti, ["k.rb"], wd)
+    if ":::2:::" in so and kf["id"] not in ctx.known_hits:
+        common.known_finding(ctx, kf, kf["what"])
+
+
 def run(ctx):
     common.build_ti(ctx)
     common.build_godrv(ctx)
     proof_ok = common.prove(ctx)
     dis = {"match": common.run_stream(ctx, "match", callcheck.match_ops(ctx.rng, ctx.pick(20000, 200000)))}
+    replay_k33(ctx)
     failures = callcheck.run_calls(ctx, ctx.pick(22, 220), 14, "a")["C08"]
 
     def search():
@@ -27,6 +46,7 @@ def run(ctx):
 
 def evidence(ctx):
     ctx.assumptions += ["the oracle leaves a call undecided unless it certainly fails or certainly fits; calls whose verdict depends on a rest parameter's element type are skipped (known finding K28)",
+                        "calls of methods whose overloads share a keyword parameter name are not judged (known finding K33)",
                         "shipped-configuration methods outside the oracle's vocabulary (blocks, special strategies, operators, namespaced types) are never judged",
                         "calls are written with parentheses; a method without parameters followed by a space and a value is parsed by ti as two expressions"]
     common.write_evidence(ctx, LEVEL, RULE, trusted=common.BASE_TRUST + [
